@@ -142,7 +142,18 @@ class C11:
             top = next((n for n in init if n["p"] == x), None)
             if op == "recreate" and (top is None or top["k"] != "d"):
                 op = "delete_layer"       # "recreate" is a request for a layer that exists as a directory
-            cases.append({"init": init, "layers": LAYERS, "name": b(tn), "op": op})
+            case = {"init": init, "layers": LAYERS, "name": b(tn), "op": op}
+            if len(cases) % 6 == 4:
+                # a layers directory whose name is not UTF-8 (paths are bytes), next to a directory whose name is the
+                # lossy rendering of that name, holding a layer of the same name: not ours
+                odd, lossy = list(b"lay\xffers"), list("lay\ufffders".encode())
+                ren = lambda q: [odd if comp == LAYERS[-1] else comp for comp in q]
+                case["init"] = [dict(e, p=ren(e["p"])) for e in init]
+                case["layers"] = ren(LAYERS)
+                case["init"] += [{"p": R + [lossy], "k": "d", "m": 0o755}, {"p": R + [lossy, b(tn)], "k": "d", "m": 0o755},
+                                 {"p": R + [lossy, b(tn), b(b"keep")], "k": "f", "m": 0o644, "c": [4]},
+                                 {"p": R + [lossy, b(tn + b".toml")], "k": "f", "m": 0o644, "c": b(b"[types]\n")}]
+            cases.append(case)
         return cases
 
     def run_impl(self, cases, workdir):
